@@ -100,7 +100,7 @@ type Contracts struct {
 }
 
 var (
-	reHeadFunc  = regexp.MustCompile(`^(func|iface|funcfield|lib)\s+(\S+?)(\(([^)]*)\))?\s*(\(([^)]*)\))?\s*$`)
+	reHeadFunc  = regexp.MustCompile(`^(func|iface|funcfield|funcparam|lib)\s+(\S+?)(\(([^)]*)\))?\s*(\(([^)]*)\))?\s*$`)
 	reClause    = regexp.MustCompile(`^(requires|ensures|assert|assume)\s+(\w+)\s*(\[([^\]]*)\])?\s*:\s*(.*)$`)
 	reLoopInv   = regexp.MustCompile(`^loop\s+(\d+)\s+invariant\s+(\w+)\s*(\[([^\]]*)\])?\s*:\s*(.*)$`)
 	reLoopMod   = regexp.MustCompile(`^loop\s+(\d+)\s+modifies\s+(.*)$`)
